@@ -108,7 +108,11 @@ def closed_form(sc, res, sp, atm):
     L = len(eps)
     for p in range(2):
         # bottom
-        if sub is not None:
+        if sub is not None and (sc.get("substrate") or {}).get("kind") == "reflector":
+            # a prescribed reflectivity is what it says (independent of the substrate object's own methods)
+            r0 = float(sc["substrate"]["params"]["specular_reflection"])
+            g = np.full(len(ang), r0); s = np.full(len(ang), (1 - r0) * sub.temperature)
+        elif sub is not None:
             g = np.asarray(sub.specular_reflection_matrix(f, eps[-1], mus[-1], 2).values)[p]
             s = np.asarray(sub.emissivity_matrix(f, eps[-1], mus[-1], 2).values)[p] * sub.temperature
         else:
